@@ -28,7 +28,8 @@ STRS = ['naïve café', 'ǅemal', 'ÀÉÎÕÜ', 'a\u0301b', 'straße', '𝄞clef
 
 
 def bounds(tier):
-    return {'strings': len(STRS), 'string_functions': len(SFUNCS), 'compositions': len(COMPOSE) ** 2}
+    return {'strings': len(STRS), 'string_functions': len(SFUNCS), 'compositions': len(COMPOSE) ** 2,
+            'substr_string_length_max': 7 if tier == 'quick' else 12}
 
 
 def q(s):
